@@ -26,6 +26,10 @@ impl<'a> WireFormat<'a> for CERT<'a> {
     where
         Self: Sized,
     {
+        if *position + 5 > data.len() {
+            return Err(crate::SimpleDnsError::InsufficientData);
+        }
+
         let type_code = u16::from_be_bytes(data[*position..*position + 2].try_into()?);
         *position += 2;
         let key_tag = u16::from_be_bytes(data[*position..*position + 2].try_into()?);
